@@ -302,7 +302,7 @@ fn check(prop: &str, tier: &str) -> i32 {
 
     // the real-bash tier (C12 carrier, C13 stub conformance)
     let mut real_report = None;
-    if prop == "C12" || prop == "C13" || prop == "C18" || prop == "C05" || prop == "C15" || prop == "C14" {
+    if prop == "C12" || prop == "C13" || prop == "C18" || prop == "C05" || prop == "C15" || prop == "C14" || prop == "C20" {
         let r = real::run_real(prop, tier, seed, threads(), &known);
         real_report = Some(r);
     }
